@@ -87,7 +87,7 @@ theorem inPolygon_region {r f : Nat} {cs : List (List FSt)} (hr : 1 ≤ r) (hg :
       (⟨(X : Int), (Y : Int), .W⟩ : FSt) ∈ cs.flatten)
     (X Y : Nat) (hX : X < nx) (hY : Y < ny) :
     inPolygon (cs.map cycRing) (X : Int) (Y : Int) = (regs (X + Y * nx) == r) := by
-  obtain ⟨c0, rest, hcs, hE0⟩ := hg.head
+  obtain ⟨c0, rest, hcs, hE0, _⟩ := hg.head
   have hR := inRegion_inRaster nx ny regs r
   have hp : X + Y * nx < nx * ny := by
     have : (Y + 1) * nx ≤ ny * nx := Nat.mul_le_mul_right nx hY
@@ -167,7 +167,7 @@ theorem evenodd_region {r f : Nat} {cs : List (List FSt)} (hr : 1 ≤ r) (hg : G
   have hR := inRegion_inRaster nx ny regs r
   have hclosed : Closed (inRegion nx ny regs r) cs.flatten := closed_flatten _ (fun c hc => (hg.cyc c hc).1)
   have hnd := hg.nodup
-  obtain ⟨c0, rest, hcs, hE0⟩ := hg.head
+  obtain ⟨c0, rest, hcs, hE0, _⟩ := hg.head
   have hEf : Est nx f ∈ cs.flatten := by
     rw [hcs, List.flatten_cons]; exact List.mem_append_left _ hE0
   have hind := w_indicator hnx regs r hclosed (f := f)
